@@ -39,7 +39,7 @@ from typing import Any, Dict, List, Optional, Sequence, Set, Tuple
 
 from hypothesis import strategies as st
 
-from ..core import CaseResult, Family, HarnessError, Violation, use_repo
+from ..core import CaseResult, Family, HarnessError, Violation, use_repo, pick
 
 use_repo()
 
@@ -1378,16 +1378,16 @@ def I(lo: int, hi: int):  # noqa: E743
 
 
 def S(seq):
-    """st.sampled_from(seq), cached by value where the elements allow it"""
+    """pick(seq), cached by value where the elements allow it"""
 
     try:
         key = ('s', tuple(seq))
         hash(key)
     except TypeError:
-        return st.sampled_from(seq)
+        return pick(seq)
 
     if key not in _STRAT:
-        _STRAT[key] = st.sampled_from(list(seq))
+        _STRAT[key] = pick(list(seq))
 
     return _STRAT[key]
 
@@ -1558,7 +1558,7 @@ FILLER = [{'kind': 'comment', 'text': '# a comment'},
           {'kind': 'comment', 'text': '  # indented @revoked * ssh-rsa AAAA'},
           {'kind': 'blank', 'text': ''},
           {'kind': 'blank', 'text': '   '}]
-_FILLER = st.sampled_from(FILLER)
+_FILLER = pick(FILLER)
 
 
 def kh_query_st(draw, names_only=False):
@@ -1715,7 +1715,7 @@ PERMITOPEN = ['localhost:80', '10.1.2.3:22', 'a.example.com:*', '[::1]:80',
               '[2001:db8::5]:*', 'localhost:65535', '*:22']
 _TEXT12 = st.text(VALUE_ALPHABET, max_size=12)
 _TEXT8 = st.text(VALUE_ALPHABET, max_size=8)
-_PRINC = st.sampled_from(PRINCIPALS)
+_PRINC = pick(PRINCIPALS)
 
 
 def _plist(draw, lo: int, unique: bool = False) -> List[str]:
